@@ -21,6 +21,13 @@ pub fn model_program_for(seed: u64, index: u64) -> lang::gen::ModelProg {
     lang::gen::gen_model_program(&mut rng)
 }
 
+pub const MEMBER_STREAM: u64 = 4444;
+
+pub fn member_program_for(seed: u64, index: u64) -> lang::gen::ModelProg {
+    let mut rng = Rng::new(derive_seed(seed, MEMBER_STREAM, index));
+    lang::gen::gen_member_program(&mut rng)
+}
+
 pub fn program_for(seed: u64, index: u64) -> (Program, GenKnobs) {
     let mut rng = Rng::new(derive_seed(seed, GEN_STREAM, index));
     let knobs = GenKnobs::draw(&mut rng);
@@ -207,6 +214,15 @@ pub fn gen_driver(p: &Program, text: &str, stem: &str) -> Result<String, String>
         }
     }
     let _ = writeln!(w, "_ => panic!(\"new_el: sort {{sort}} has no plain constructor\") }} }}");
+
+    // new_member
+    let _ = writeln!(w, "fn new_member(&mut self, sort: usize, parent: u32) -> u32 {{ match sort {{");
+    for (si, s) in p.sorts.iter().enumerate() {
+        if let SortKind::Member { model_sort, .. } = s.kind {
+            let _ = writeln!(w, "{si} => self.0.new_{}({}).0,", p.sort_snake(si), wrap(p, model_sort, "parent"));
+        }
+    }
+    let _ = writeln!(w, "_ => panic!(\"new_member: sort {{sort}} is not a member type\") }} }}");
 
     // new_enum
     let _ = writeln!(w, "fn new_enum(&mut self, ctor: usize, args: &[u32]) -> u32 {{ match ctor {{");
@@ -449,6 +465,47 @@ pub fn main_impl() {
                 println!("{n:6} {k}");
             }
         }
+        "probemember" => {
+            let tmp = PathBuf::from(format!("/dev/shm/vgen-probe-{}", std::process::id()));
+            let mut stats: BTreeMap<String, usize> = BTreeMap::new();
+            for i in first..first + count {
+                let mp = member_program_for(seed, i as u64);
+                let key = match compile_module(&tmp, "pnx", &mp.text) {
+                    Ok(_) => "accepted".to_string(),
+                    Err(e) => {
+                        if a.contains_key("show") && stats.get(&e).copied().unwrap_or(0) < 2 {
+                            println!("---- program {i}: {e}\n{}", mp.text);
+                        }
+                        e
+                    }
+                };
+                *stats.entry(key).or_insert(0) += 1;
+            }
+            let _ = std::fs::remove_dir_all(&tmp);
+            for (k, n) in stats {
+                println!("{n:6} {k}");
+            }
+        }
+        "one" => {
+            // compile one .eql file to Rust text (for inspection): vgen one --file x.eql --out dir
+            let file = PathBuf::from(a.get("file").expect("--file"));
+            let out = PathBuf::from(a.get("out").expect("--out"));
+            let text = std::fs::read_to_string(&file).expect("read");
+            let stem = file.file_stem().unwrap().to_str().unwrap().to_string();
+            match compile_module(&out, &stem, &text) {
+                Ok(t) => println!("ok: {} bytes in {}", t.len(), out.display()),
+                Err(e) => {
+                    println!("rejected: {e}");
+                    if a.contains_key("full") {
+                        let config = eqlog::Config { in_dir: out.join("in"), out_dir: out.join("out"), component_build: None };
+                        if let Err(e) = eqlog::process(&config) {
+                            println!("{e}");
+                        }
+                    }
+                    std::process::exit(1);
+                }
+            }
+        }
         "corpus" => {
             let out = PathBuf::from(a.get("out").expect("--out"));
             if let Err(e) = corpus(seed, first, count, &out, a.get("exclude").map(|s| s.as_str()).unwrap_or("")) {
@@ -610,6 +667,34 @@ fn corpus(seed: u64, first: usize, count: usize, out: &Path, exclude: &str) -> R
                 Err(e) => return Err(format!("driver generation failed for {stem}: {e}")),
             },
             Err(e) => diagnostics.push(format!("model program {i} rejected: {e}")),
+        }
+    }
+    let n_members: usize = std::env::var("VGEN_MEMBERS").ok().and_then(|s| s.parse().ok()).unwrap_or(count / 4);
+    for i in 0..n_members * 2 {
+        if items.iter().filter(|it| it.origin.starts_with("genmember")).count() >= n_members {
+            break;
+        }
+        let mp = member_program_for(seed, i as u64);
+        let stem = format!("pn{}", letters(i));
+        if excluded.contains(&stem.as_str()) {
+            continue;
+        }
+        match compile_module(&tmp, &stem, &mp.text) {
+            Ok(module) => match gen_driver(&mp.program, &module, &stem) {
+                Ok(driver) => {
+                    write_if_changed(&gen_dir.join(format!("{stem}.eql")), &mp.text)?;
+                    write_if_changed(&gen_dir.join(format!("{stem}.eql.rs")), &module)?;
+                    write_if_changed(&gen_dir.join(format!("{stem}.driver.rs")), &driver)?;
+                    items.push(CorpusItem {
+                        stem,
+                        text: mp.text.clone(),
+                        origin: format!("genmember:{seed}:{i}"),
+                        program: mp.program,
+                    });
+                }
+                Err(e) => return Err(format!("driver generation failed for {stem}: {e}")),
+            },
+            Err(e) => diagnostics.push(format!("member-type program {i} rejected: {e}")),
         }
     }
     let _ = std::fs::remove_dir_all(&tmp);
